@@ -38,12 +38,13 @@ def bfs_cfg(name, vecs=3, dims=(2, 3), exts=(1,), nblk=6, cap=2, maxops=3, ops=(
             ",".join(map(str, dims)), ",".join(map(str, exts)), nblk, cap, maxops))
         f.write('  Policy = "%s"\n  StealEmpties = %s\n  OpsOn = {%s}\n  Faults = %s\n  NoVec = none\n' % (
             policy, "TRUE" if steal_empties else "FALSE", ",".join('"%s"' % o for o in ops), "TRUE" if faults else "FALSE"))
-        f.write("SYMMETRY Sym\n")
+        if not next_op:
+            f.write("SYMMETRY Sym\n")
         f.write("INVARIANTS %s\n" % " ".join(invs))
         if props:
             f.write("PROPERTIES %s\n" % " ".join(props))
         if emit:
-            f.write("ACTION_CONSTRAINT Emit\n")
+            f.write("ACTION_CONSTRAINT %s\n" % ("Emit" if not next_op else "EmitShape"))
         f.write("CHECK_DEADLOCK FALSE\n")
     return p
 
@@ -561,3 +562,40 @@ def crash_violation(v, info, prefix=""):
     key = prefix + "%s/%s" % (p[0], kind)
     v.violation(key, "driver died executing '%s' (rc=%s): %s" % (cmd, info.get("rc"), err[-1500:]), {"segment": seg, "cmd": cmd, "stderr": err[-3000:]})
     return True
+
+
+def setup_cmds(kinds, ds, dl):
+    """driver commands building the prepared pool of SUVec!Setup(kinds) with small/large dimensions ds/dl"""
+    cmds = []
+    for i, k in enumerate(kinds):
+        if k == "empty": cmds.append("NewEmpty %d" % i)
+        elif k == "ownS": cmds.append("NewSized %d %d 0" % (i, ds))
+        elif k == "ownL": cmds.append("NewSized %d %d 0" % (i, dl))
+        elif k == "extS": cmds.append("NewExt %d %d 1" % (i, ds))
+        elif k == "extL": cmds.append("NewExt %d %d 2" % (i, dl))
+    for i, k in enumerate(kinds):
+        if k in ("ownS", "ownL", "extS", "extL"):
+            cmds.append("Write %d %d" % (i, 2 if i == 0 else 2 * (i + 1) + 1))
+    return cmds
+
+
+def shape_scripts(edges, ds, dl, keep=lambda i, e: True, flags_of=lambda i, e: 0):
+    out = []
+    for i, e in enumerate(edges):
+        if not keep(i, e):
+            continue
+        a = dict(e["act"])
+        if "ord" in e:     # kinds are listed in the specification's enumeration order of the pool
+            pos = {name: i for i, name in enumerate(e["ord"])}
+            for fld in ("t", "a", "b"):
+                if a[fld] in pos:
+                    a[fld] = pos[a[fld]]
+        # dimensions in the exported calls refer to the small/large dimension of the exploration (2/3)
+        if a["name"] in ("NewSized", "MakeAligned", "NewExt", "Factory") and a["d"] in (2, 3):
+            a = dict(a); dd = a["d"]; a["d"] = ds if dd == 2 else dl
+            if a["name"] == "Factory":   # indices were chosen relative to the dimension
+                if a["op"] == "generator": a["c"] = a["d"] * a["d"] + (a["c"] - dd * dd)
+                else: a["c"] = a["d"] + (a["c"] - dd)
+        a["flags"] = flags_of(i, e)
+        out.append(setup_cmds(e["kinds"], ds, dl) + [act_to_cmd(a)])
+    return out
